@@ -410,8 +410,8 @@ func knownClass(d *DataJ, q QueryJ) string {
 	}
 	// K17: grouped aggregation (by / without) directly over a vector-vector operator whose operands both contain a range
 	// function: the operands are regrouped by the aggregation's labels before the operator sees them, and the operator
-	// pairs the rows of a group by position. Wrong as soon as, in some group that both operands populate and that holds
-	// two or more series of one operand, the operands' (step, series) rows differ (a sample without a partner).
+	// pairs the rows of a group by position. Wrong as soon as, in some group that both operands populate, the operands'
+	// series differ, or (two or more series) their (step, series) rows differ (a sample without a partner).
 	{
 		k17 := false
 		var st *memStore
@@ -442,6 +442,140 @@ func knownClass(d *DataJ, q QueryJ) string {
 		})
 		if k17 {
 			return "grouped_aggregation_over_operator_of_range_functions_with_unpaired_samples"
+		}
+	}
+	// K11b: instant query, vector-vector operator of which one operand is an aggregation over a range function with an
+	// offset and the other operand contains a vector-vector operator: the aggregated sample is looked up at / stamped with
+	// t - offset (empty answer or shifted timestamp); same family as K11
+	if instant {
+		k11b := false
+		aggOverOffsetRange := func(e parser.Expr) bool {
+			a, ok := unparen(e).(*parser.AggregateExpr)
+			if !ok {
+				return false
+			}
+			for _, u := range selectorsOf(a.Expr) {
+				if u.rng > 0 && u.off != 0 {
+					return true
+				}
+			}
+			return false
+		}
+		holdsVectorOperator := func(e parser.Expr) bool {
+			found := false
+			parser.Inspect(e, func(node parser.Node, _ []parser.Node) error {
+				if b, ok := node.(*parser.BinaryExpr); ok && b.LHS.Type() == parser.ValueTypeVector && b.RHS.Type() == parser.ValueTypeVector {
+					found = true
+				}
+				return nil
+			})
+			return found
+		}
+		parser.Inspect(expr, func(node parser.Node, _ []parser.Node) error {
+			b, ok := node.(*parser.BinaryExpr)
+			if !ok || b.LHS.Type() != parser.ValueTypeVector || b.RHS.Type() != parser.ValueTypeVector {
+				return nil
+			}
+			if (aggOverOffsetRange(b.LHS) && holdsVectorOperator(b.RHS)) || (aggOverOffsetRange(b.RHS) && holdsVectorOperator(b.LHS)) {
+				k11b = true
+			}
+			return nil
+		})
+		if k11b {
+			return "instant_aggregation_over_offset_range_function_beside_nested_operator"
+		}
+	}
+	// K18: a comparison with the bool modifier between a scalar and a vector operand that is a unary minus expression
+	// (the generator writes one as "-1 ^ v", which parses as -(1 ^ v)): the modifier is ignored, the comparison filters
+	{
+		k18 := false
+		parser.Inspect(expr, func(node parser.Node, _ []parser.Node) error {
+			b, ok := node.(*parser.BinaryExpr)
+			if !ok || !b.Op.IsComparisonOperator() || !b.ReturnBool {
+				return nil
+			}
+			for _, pair := range [][2]parser.Expr{{b.LHS, b.RHS}, {b.RHS, b.LHS}} {
+				if pair[1].Type() != parser.ValueTypeScalar || pair[0].Type() != parser.ValueTypeVector {
+					continue
+				}
+				if u, ok := unparen(pair[0]).(*parser.UnaryExpr); ok && u.Op == parser.SUB {
+					k18 = true
+				}
+			}
+			return nil
+		})
+		if k18 {
+			return "bool_comparison_of_unary_minus"
+		}
+	}
+	// R1 (oracle, not a finding): some comparison of the expression has, at some step, operands that the reference itself
+	// computes equal up to the rounding the property grants (1e-9 relative) without being identical, or identical and not
+	// zero while one of them comes from an order-dependent floating-point computation (rate, increase, delta, irate,
+	// idelta, avg/sum/stddev/stdvar_over_time, sum, avg): one unit in the last place decides what the comparison keeps,
+	// the answer is not determined "up to floating-point rounding"
+	{
+		var st *memStore
+		r1 := false
+		absEps := 1e-12 * maxAbs(d)
+		near := func(a, b float64, inexact bool) bool {
+			if math.IsNaN(a) || math.IsNaN(b) || math.IsInf(a, 0) || math.IsInf(b, 0) {
+				return false
+			}
+			if a == b {
+				return inexact && a != 0
+			}
+			df := math.Abs(a - b)
+			return df <= 1e-9*math.Max(math.Abs(a), math.Abs(b)) || df <= absEps
+		}
+		parser.Inspect(expr, func(node parser.Node, _ []parser.Node) error {
+			b, ok := node.(*parser.BinaryExpr)
+			if !ok || r1 || !b.Op.IsComparisonOperator() {
+				return nil
+			}
+			if b.LHS.Type() == parser.ValueTypeScalar && b.RHS.Type() == parser.ValueTypeScalar {
+				return nil
+			}
+			if st == nil {
+				st = newMemStore(d)
+			}
+			l := refQuery(st, b.LHS.String(), d.Base+q.Start, d.Base+q.End, q.Step)
+			r := refQuery(st, b.RHS.String(), d.Base+q.Start, d.Base+q.End, q.Step)
+			if l.Err != "" || r.Err != "" {
+				return nil
+			}
+			inexact := orderDependentArithmetic(b.LHS) || orderDependentArithmetic(b.RHS)
+			scalarSide := b.LHS.Type() == parser.ValueTypeScalar || b.RHS.Type() == parser.ValueTypeScalar
+			type key struct {
+				sig string
+				t   int64
+			}
+			right := map[key][]float64{}
+			for _, s := range r.Series {
+				sig := ""
+				if !scalarSide {
+					sig = matchSignature(b.VectorMatching, s.Labels)
+				}
+				for _, p := range s.Points {
+					right[key{sig, p.T}] = append(right[key{sig, p.T}], p.V)
+				}
+			}
+			for _, s := range l.Series {
+				sig := ""
+				if !scalarSide {
+					sig = matchSignature(b.VectorMatching, s.Labels)
+				}
+				for _, p := range s.Points {
+					for _, v := range right[key{sig, p.T}] {
+						if near(p.V, v, inexact) {
+							r1 = true
+						}
+					}
+				}
+			}
+			return nil
+		})
+		if r1 {
+			return "comparison_decided_by_rounding (oracle)"
 		}
 	}
 	// K14: min / max over an expression (not a bare selector) whose value is NaN or +-Inf at some step: the answer is
@@ -677,8 +811,8 @@ func aggregationGroup(a *parser.AggregateExpr, lbls map[string]string) string {
 }
 
 // unpairedRowsInSharedGroup: l and r are the operands' answers over the whole queried range. True when some group of
-// the aggregation holds rows of both operands, two or more series of one of them, and the (step, matching signature)
-// rows of the operands in that group are not the same set.
+// the aggregation holds rows of both operands and either the operands' series in that group are not the same (by
+// matching signature), or there are two or more of them and the (step, series) rows of the operands differ.
 func unpairedRowsInSharedGroup(a *parser.AggregateExpr, vm *parser.VectorMatching, l, r *Result) bool {
 	type side struct {
 		rows   map[string]bool
@@ -707,8 +841,20 @@ func unpairedRowsInSharedGroup(a *parser.AggregateExpr, vm *parser.VectorMatchin
 	lg, rg := collect(l), collect(r)
 	for g, ls := range lg {
 		rs := rg[g]
-		if rs == nil || (len(ls.series) < 2 && len(rs.series) < 2) {
+		if rs == nil {
 			continue
+		}
+		same := len(ls.series) == len(rs.series)
+		for k := range ls.series {
+			if !rs.series[k] {
+				same = false
+			}
+		}
+		if !same {
+			return true // the group pairs series that the operator does not match
+		}
+		if len(ls.series) < 2 {
+			continue // one series on either side, the same one: paired by time
 		}
 		if len(ls.rows) != len(rs.rows) {
 			return true
@@ -720,4 +866,27 @@ func unpairedRowsInSharedGroup(a *parser.AggregateExpr, vm *parser.VectorMatchin
 		}
 	}
 	return false
+}
+
+var orderDependentFns = map[string]bool{"rate": true, "increase": true, "delta": true, "irate": true, "idelta": true,
+	"avg_over_time": true, "sum_over_time": true, "stddev_over_time": true, "stdvar_over_time": true}
+
+// orderDependentArithmetic: the value of e comes from a floating-point computation whose rounding depends on the order
+// of the operations (two correct implementations may differ in the last place).
+func orderDependentArithmetic(e parser.Expr) bool {
+	found := false
+	parser.Inspect(e, func(node parser.Node, _ []parser.Node) error {
+		switch n := node.(type) {
+		case *parser.Call:
+			if orderDependentFns[n.Func.Name] {
+				found = true
+			}
+		case *parser.AggregateExpr:
+			if n.Op == parser.SUM || n.Op == parser.AVG {
+				found = true
+			}
+		}
+		return nil
+	})
+	return found
 }
